@@ -251,6 +251,8 @@ class Parser(parsmod.Visitor[sql.Selectable, sql.ColumnElement]):  # pylint: dis
         Returns:
             Tuple of referenced origin and the bare reference handle both in target code.
         """
+        if isinstance(instance, sql.Join):  # a join can only be named through a sub-select
+            instance = sql.select(instance)
         ref = instance.alias(sql.quoted_name(name, quote=True))
         return ref, ref
 
